@@ -244,6 +244,16 @@ def fam_leak(seed, big):
                 out.append({"id": "l%d" % i, "class": "leak", "argv": vargv(), "stdin": a, "stdout": b, "stderr": c,
                             "earlier": earlier, "thread": thr, "repeat": rng.choice([1, 2, 3])})
                 i += 1
+    # the same with standard descriptors of the parent closed: pipe ends of the library (of this launch and of the
+    # earlier, still living Popens) are created on -- and moved away from -- the numbers 0-2
+    for closed in ([0], [0, 1], [0, 1, 2]):
+        for earlier in (0, 1, 2):
+            for (a, b, c) in [("pipe", "pipe", "pipe"), ("pipe", "none", "none"), ("none", "pipe", "merge")]:
+                if any(x == "none" and k in closed for k, x in enumerate((a, b, c))):
+                    continue  # (an inherited stream that is closed: nothing to judge)
+                out.append({"id": "l%d" % i, "class": "leak-closed-std", "argv": vargv(), "stdin": a, "stdout": b, "stderr": c,
+                            "earlier": earlier, "closed_std": closed, "repeat": 2})
+                i += 1
     return out
 
 
@@ -430,4 +440,14 @@ def fam_path_noslash(seed):
             if have_local:
                 sc["expexe"] = hx(os.path.join(cwd, "tool2"))
             out.append(sc)
+        # the program actually started is the `executable` override: IT decides whether PATH is searched, not argv[0]
+        if have_local and have_decoy:
+            out.append({"id": "ns%d-exe-slash" % i, "class": "path-slash", "argv": [hx("tool2"), hx("x")], "exe": hx("sub/tool"),
+                        "cwd": hx(cwd), "path": hx(decoy), "expect_start": True, "expexe": hx(os.path.join(cwd, "sub", "tool"))})
+            out.append({"id": "ns%d-exe-abs" % i, "class": "path-slash", "argv": [hx("tool2"), hx("x")],
+                        "exe": hx(os.path.join(cwd, "sub", "tool")), "cwd": hx("/"), "path": hx(decoy), "expect_start": True,
+                        "expexe": hx(os.path.join(cwd, "sub", "tool"))})
+            out.append({"id": "ns%d-exe-bare" % i, "class": "path-slash", "argv": [hx("/nonexistent/display-name"), hx("x")],
+                        "exe": hx("tool2"), "cwd": hx(cwd), "path": hx(decoy), "expect_start": True,
+                        "expexe": hx(os.path.join(decoy, "tool2"))})
     return out
